@@ -20,6 +20,12 @@
  *   dd-duplicate-descriptor a (base tag, ref) occurs twice in the DD blocks (after Hdupdd onto an existing tag/ref)
  * Special scenarios by case number: k%16==3 lets Hnumber run where it reads past an odd-sized block (F5: ASan report),
  * k%16==5 allows Hdupdd onto an existing tag/ref (F17: use-after-free), k%64==9 fills refs 1..65534 of one tag (F7).
+ * Unit level (end of every case, function-level Tie A of bitvect.c): a vector made by bv_new(-1) is driven through the REAL bv_set / bv_get /
+ * bv_find_next_zero (bitvect.c is #included, so bv_struct can be read out): `T dd bvnew`, `bvset <bit> <value>`, `bvfill <a> <b> <value>`
+ * (bv_set on a..b-1), `bvget <bit>`, `bvfind`, `bvnull` (all three on NULL); results `<ret> <bits_used> <array_size> <last_zero> <buffer hex,
+ * trailing zero bytes trimmed>`.  Bit numbers are biased to bits_used, 8*array_size (growth across BV_CHUNK_SIZE, several chunks), negative.
+ * The Lean side recomputes them with the hand model AND with the functions translated from the C text (` GEN=` on a difference).
+ * Oracle: a shadow array with the value of every bit.  Keys: bv-set-status, bv-get-wrong-bit, bv-find-not-lowest-zero, bv-null-accepted.
  * argv[4] (optional): six 0/1 digits = which fixes the model should assume (sent as `T dd cfg <bits>`), default = as is.
  */
 #include "hdf.h"
@@ -31,6 +37,7 @@ static int dd_setvbuf(FILE *f, char *b, int m, size_t n) { (void)m; return setvb
 #define setvbuf dd_setvbuf
 #include "hk.h"
 #undef setvbuf
+#include "hdf/src/bitvect.c" /* resolved through -I<REPO>: bv_struct is private to bitvect.c; the library's bitvect.o is then not linked */
 
 #define MAXE 70000
 typedef struct { uint16 tag, ref; int32 off, len; int live; } ent_t;
@@ -606,6 +613,116 @@ static int probe(int which)
     return !(WIFEXITED(st) && WEXITSTATUS(st) == 0);
 }
 
+
+/* ---- unit level: bitvect.c ---- */
+#define BVMAX 80000
+static uint8 bvsh[BVMAX + 64]; /* shadow: the value of every bit */
+static long n_bvops, n_bvgrow, n_bvext;
+static void bv_show(bv_ptr b, int ret)
+{
+    int32 n = b->array_size;
+    while (n > 0 && b->buffer[n - 1] == 0) n--;
+    printf("%d %d %d %d ", ret, (int)b->bits_used, (int)b->array_size, (int)b->last_zero);
+    hk_hex(b->buffer, (size_t)n);
+    printf("\n");
+}
+static void bv_op_set(bv_ptr b, int32 bit, int v)
+{
+    int32 as0 = b->array_size;
+    int r = bv_set(b, bit, (bv_bool)v);
+    printf("T dd bvset %d %d => ", (int)bit, v);
+    bv_show(b, r);
+    n_bvops++;
+    if (b->array_size != as0) n_bvgrow++;
+    if ((bit < 0) != (r == FAIL)) hk_fail("bv-set-status", "bv_set(%d, %d) returned %d", (int)bit, v, r);
+    if (bit >= 0 && bit < BVMAX && r != FAIL) bvsh[bit] = (uint8)(v != 0);
+}
+static void bv_op_get(bv_ptr b, int32 bit)
+{
+    int r = bv_get(b, bit);
+    printf("T dd bvget %d => %d\n", (int)bit, r);
+    n_bvops++;
+    int want = bit < 0 ? FAIL : (bit < BVMAX ? bvsh[bit] : 0);
+    if (r != want) hk_fail("bv-get-wrong-bit", "bv_get(%d) = %d, the bit was last set to %d", (int)bit, r, want);
+}
+static int32 bv_op_find(bv_ptr b)
+{
+    int32 bu0 = b->bits_used;
+    int32 r = bv_find_next_zero(b);
+    printf("T dd bvfind => ");
+    bv_show(b, (int)r);
+    n_bvops++;
+    if (b->bits_used != bu0) n_bvext++;
+    int ok = r >= 0 && r < BVMAX && bvsh[r] == 0;
+    for (int32 i = 0; ok && i < r; i++) if (!bvsh[i]) ok = 0;
+    if (!ok) hk_fail("bv-find-not-lowest-zero", "bv_find_next_zero returned %d, which is not the lowest clear bit", (int)r);
+    return r;
+}
+static int32 bv_pick_bit(bv_ptr b)
+{
+    int c = (int)hk_range(0, 99);
+    int32 bu = b->bits_used, cap = 8 * b->array_size;
+    if (cap > BVMAX - 4096) c = c % 40 + (c >= 94 ? 94 : 0); /* the shadow is finite */
+    if (c < 40) return (int32)hk_range(0, bu + 3);
+    if (c < 50) return (int32)hk_range(bu > 9 ? bu - 9 : 0, bu + 9);
+    if (c < 68) return cap + (int32)hk_range(-2, 2);                                          /* last bit of the block / first bit beyond it */
+    if (c < 80) return cap + 8 * BV_CHUNK_SIZE * (int32)hk_range(0, 3) + (int32)hk_range(-9, 9); /* growth by one or several chunks */
+    if (c < 88) return (int32)hk_range(0, 70000);
+    if (c < 94) return (int32)hk_range(0, 7) * 8 + (int32)hk_range(0, 7);
+    return -(int32)hk_range(1, 9);
+}
+static void bv_phase(void)
+{
+    bv_ptr b = bv_new(-1);
+    memset(bvsh, 0, sizeof bvsh);
+    if (b == NULL) { printf("T dd bvnew => fail\n"); hk_fail("bv-new-fails", "bv_new(-1)"); return; }
+    printf("T dd bvnew => ");
+    bv_show(b, 0);
+    if (hk_chance(10)) {
+        int r1 = bv_set(NULL, 3, BV_TRUE), r2 = bv_get(NULL, 3);
+        int32 r3 = bv_find_next_zero(NULL);
+        printf("T dd bvnull => %d %d %d\n", r1, r2, (int)r3);
+        if (r1 != FAIL || r2 != FAIL || r3 != FAIL) hk_fail("bv-null-accepted", "bv_set/bv_get/bv_find_next_zero(NULL) = %d %d %d", r1, r2, (int)r3);
+    }
+    if (hk_chance(35)) { /* every bit in use set: the scan passes full bytes, the next bvfind extends the vector */
+        int32 a = 0, e = hk_chance(60) ? b->bits_used : (int32)hk_range(1, b->bits_used + 40);
+        int r = SUCCEED;
+        for (int32 i = a; i < e; i++) { if (bv_set(b, i, BV_TRUE) == FAIL) r = FAIL; if (i < BVMAX) bvsh[i] = 1; }
+        printf("T dd bvfill %d %d 1 => ", (int)a, (int)e);
+        bv_show(b, r);
+    }
+    int nops = (int)hk_range(8, 50);
+    for (int i = 0; i < nops; i++) {
+        int c = (int)hk_range(0, 99);
+        if (c < 35) bv_op_set(b, bv_pick_bit(b), hk_chance(70) ? 1 : (hk_chance(93) ? 0 : 2));
+        else if (c < 50) { /* the allocation pattern of Htagnewref: take the free bit */
+            int n = (int)hk_range(1, 12);
+            for (int q = 0; q < n; q++) { int32 r = bv_op_find(b); if (r < 0) break; bv_op_set(b, r, 1); }
+        }
+        else if (c < 62) bv_op_find(b);
+        else if (c < 70) { /* a run of bits */
+            int32 a = bv_pick_bit(b);
+            if (a < 0) a = 0;
+            int32 e = a + (int32)hk_range(1, 70);
+            int v = hk_chance(75), r = SUCCEED;
+            int32 as0 = b->array_size;
+            for (int32 q = a; q < e; q++) { if (bv_set(b, q, (bv_bool)v) == FAIL) r = FAIL; if (q < BVMAX) bvsh[q] = (uint8)v; }
+            printf("T dd bvfill %d %d %d => ", (int)a, (int)e, v);
+            bv_show(b, r);
+            n_bvops++;
+            if (b->array_size != as0) n_bvgrow++;
+        }
+        else {
+            int g = (int)hk_range(0, 9);
+            bv_op_get(b, g < 6 ? bv_pick_bit(b) : g < 8 ? b->bits_used - 1 : b->bits_used);
+        }
+    }
+    /* every bit of the shadow, through bv_get, without T lines */
+    for (int32 i = 0; i < b->bits_used + 16 && i < BVMAX; i++)
+        if (bv_get(b, i) != bvsh[i]) { hk_fail("bv-get-wrong-bit", "final sweep: bv_get(%d) = %d, the bit was last set to %d", (int)i, bv_get(b, i), bvsh[i]); break; }
+    bv_delete(b);
+}
+
 static void run_case(int k)
 {
     if (!probed) { probed = 1; f5_present = probe(5); f17_present = probe(17); printf("INFO f5_present=%d f17_present=%d\n", f5_present, f17_present); }
@@ -658,6 +775,9 @@ static void run_case(int k)
 done:
     if (fid != FAIL) Hclose(fid);
     fid = FAIL;
+    bv_phase(); /* after everything else, so that the random history of the directory part of a case is what it was before */
+    hk_stat("bv_ops", n_bvops); hk_stat("bv_grow", n_bvgrow); hk_stat("bv_find_ext", n_bvext);
+    n_bvops = n_bvgrow = n_bvext = 0;
     hk_stat("ops", n_ops); hk_stat("reopens", n_reopen); hk_stat("new_blocks", n_newblk);
     n_ops = n_reopen = n_newblk = 0;
     if (k % 50 == 0) printf("SAMPLE case %d ndds=%d ops=%d entries=%d\n", k, ndds, nops, sh_count());
